@@ -19,7 +19,7 @@ from __future__ import annotations
 
 import itertools
 
-from .. import defs, impl, refimpl, t1_hist
+from .. import defs, impl, refimpl, t1_hist, v5_c06bb
 from ..common import Result, mkrng
 from ..structprops import Engine, load, real_parse, bits_after_dynamic, small_unit_bits, signed_bit_units, rand_bytes
 
@@ -284,7 +284,11 @@ def run(env) -> Result:
                 "reference vs Lean model. (d) endianness histories on one instance: cs.endian switched after load / after a first parse / after a "
                 "first parse+dump, both directions and back, per storage type x compiled x first endianness plus mixed trees, 1-3 definitions per "
                 "instance loaded in different epochs; the same predicates per step against the reference for the byte order in effect, and values "
-                "parsed before a switch dumped after it. distinct = (definition, config, input); non-trivial = >= 2 bit-fields")
+                "parsed before a switch dumped after it. (e) operation sequences (read/write/flush/reset, 2-25 calls, widths 0-64 that fit / exhaust / "
+                "straddle, 16 storage types, endian codes < > ! @ =) on the real BitBuffer object over a BytesIO: after every call result or "
+                "exception class, _remaining, _type, tell() and the canonical buffer content against the Lean object model, at the end the stream "
+                "content; reads against plain bit slicing of the unit, clean write runs + flush read back by a fresh BitBuffer. "
+                "distinct = (definition, config, input) resp. (sequence, endian, stream); non-trivial = >= 2 bit-fields resp. >= 3 bit calls or 2 types")
     eng = Engine(env, res, "C06")
     rnd = mkrng(env["seed"], "c06")
     tier = env["tier"]
@@ -376,6 +380,8 @@ def run(env) -> Result:
             else:
                 Lfake = type("X", (), {})()
     eng.flush()
+    # (e) the class BitBuffer as an object: operation sequences on the real object against the Lean model and the bit-slicing reference
+    v5_c06bb.run(env, eng, res, mkrng(env["seed"], "c06-bb"))
     res.sample({"definition": defs.render_struct("T", trees[0]), "inputs": "all 256 byte values"})
     res.sample({"definition": defs.render_struct("T", trees[-1])})
     return res
@@ -383,5 +389,7 @@ def run(env) -> Result:
 
 def replay(body) -> int:
     print("replay:", body.get("what"))
+    if "bbops" in (body.get("case") or {}):
+        return v5_c06bb.replay_case(body["case"])
     print(body.get("case", {}).get("repro"), body.get("case", {}).get("data"))
     return 0
